@@ -24,6 +24,8 @@ import IgrisModel.C09.Order
 import IgrisModel.C09.Bound
 import IgrisModel.C09.Bounded
 import IgrisModel.C09.Layout
+import IgrisModel.C09.Into
+import IgrisModel.C09.Cost
 namespace Igris.C09
 open Igris.Proto
 
@@ -743,6 +745,144 @@ example : ∀ v ∈ [Val.sc 1, Val.sc 0xffff], ∃ n, v = .sc n ∧ n < 2 ^ (8 *
   rcases hv with rfl | rfl
   · exact ⟨1, rfl, by decide⟩
   · exact ⟨0xffff, rfl, by decide⟩
+
+
+/-! ## 15. extension 3: decoding INTO an object that already holds a value
+
+`igris::deserialize(reader, obj)` (also every `r & field` of a `reflect`, and `deserialize<T>(buffer)` with its
+`T ret;` — a user type whose default constructor fills a container is NOT empty there) and
+`deserializer::operator&(T &obj)`.  `decodeInto true` / `decodeIntoS true` = the code after
+`fix: the container deserialisers replace what the destination held`; `… false` = the code before. -/
+
+/-- DESTINATION INDEPENDENCE, archive stack: for every type, EVERY previous content `d` of the object and EVERY
+input (complete, truncated, hostile) the in-place reader delivers what the reader into a new object delivers -/
+theorem decode_into_destination_independent (ty : Ty) (d : Val) (input : List Byte) :
+    decodeInto true ty d input = decodeB ty input := by
+  rw [decodeInto_eq true ty d (Or.inl rfl)]
+
+/-- ROUND TRIP INTO ANY OBJECT, archive stack: whatever the object held, it holds `v` afterwards and the reader
+stands exactly behind the encoding -/
+theorem roundtrip_into_any_destination_A (ty : Ty) (d v : Val) (rest : List Byte) (h : WF ty v) :
+    decodeInto true ty d (encodeA ty v ++ rest) = some (v, rest) := by
+  rw [decode_into_destination_independent]; exact roundtrip_prefix_B ty v rest h
+
+/-- the same for the serializer stack -/
+theorem roundtrip_into_any_destination_S (ty : Ty) (d v : Val) (rest : List Byte) (hs : ty.supportedS = true)
+    (h : WF ty v) : decodeIntoS true ty d (encodeS ty v ++ rest) = some (v, rest) :=
+  rtIntoS true ty d v rest (Or.inl rfl) hs h
+
+/-- into a value-initialised object the in-place reader of the serializer stack IS `deserialize<T>()`, on EVERY
+input — all statements about `decodeS` (bounds, truncation = zero extension) carry over -/
+theorem decode_into_fresh_is_deserialize_S (ty : Ty) (input : List Byte) :
+    decodeIntoS true ty (fresh ty) input = decodeS ty input := by
+  rw [decodeIntoS_fresh]
+
+/-- contrast: on a TRUNCATED input the storage reader copies only the bytes that exist, a scalar that is decoded
+in place keeps the other bytes of its old value (the archive reader zero-fills: theorem above) -/
+theorem decode_into_S_truncated_keeps_destination_witness :
+    decodeIntoS true (.sc .u32) (.sc 0xAABBCCDD) [0x01, 0x02] = some (.sc 0xAABB0201, []) ∧
+    decodeInto true (.sc .u32) (.sc 0xAABBCCDD) [0x01, 0x02] = some (.sc 0x00000201, []) := ⟨rfl, rfl⟩
+
+/-- the fix changes nothing where the old code was right: into a default-constructed object (empty containers)
+the code before the fix decoded, on every input, what the code after it decodes -/
+theorem decode_into_old_fresh (ty : Ty) (input : List Byte) :
+    decodeInto false ty (fresh ty) input = decodeB ty input := by
+  rw [decodeInto_eq false ty _ (Or.inr rfl)]
+
+/-- THE DEFECT (code before the fix), general: a vector decoded into an object that holds `d` comes back as
+`d ++ v` — the round trip `deserialize(serialize v) = v` failed for every non-empty destination -/
+theorem decode_into_old_appends (t : Ty) (d : Val) (vs : List Val) (rest : List Byte)
+    (h : WF (.vec t) (.list vs)) :
+    decodeInto false (.vec t) d (encodeA (.vec t) (.list vs) ++ rest) = some (.list (d.items ++ vs), rest) := by
+  rw [decodeInto_old_vec, roundtrip_prefix_B _ _ _ h]
+  rfl
+
+/-- … exactly: the old code round-tripped a vector iff the destination was empty -/
+theorem decode_into_old_roundtrip_iff (t : Ty) (d : Val) (vs : List Val) (rest : List Byte)
+    (h : WF (.vec t) (.list vs)) :
+    decodeInto false (.vec t) d (encodeA (.vec t) (.list vs) ++ rest) = some (.list vs, rest) ↔ d.items = [] := by
+  rw [decode_into_old_appends t d vs rest h]
+  constructor
+  · intro e
+    injection e with e
+    injection e with e _
+    injection e with e
+    have hl := congrArg List.length e   -- d.items ++ vs = vs
+    rw [List.length_append] at hl
+    exact List.eq_nil_of_length_eq_zero (by omega)
+  · intro e; rw [e]; rfl
+
+/-- `_witness` (the replayed violations `ia V(u8) [01] [02] - -` and `ia M(u8,u8) {01:02} {01:03} - -`): the vector
+came back as [01,02]; the map kept the OLD value of the key that was sent again -/
+theorem decode_into_old_witness :
+    decodeInto false (.vec (.sc .u8)) (.list [.sc 1]) [1, 0, 2] = some (.list [.sc 1, .sc 2], []) ∧
+    decodeInto false (.map (.sc .u8) (.sc .u8)) (.list [.list [.sc 1, .sc 2]]) [1, 0, 1, 3] =
+      some (.list [.list [.sc 1, .sc 2]], []) ∧
+    decodeInto true (.map (.sc .u8) (.sc .u8)) (.list [.list [.sc 1, .sc 2]]) [1, 0, 1, 3] =
+      some (.list [.list [.sc 1, .sc 3]], []) := ⟨rfl, rfl, rfl⟩
+
+example : WF (.vec (.sc .u8)) (.list [.sc 2]) := wfb_sound _ _ (by decide)
+example : WF (.struct [.vec (.sc .u8), .sc .i16, .map (.sc .u8) (.sc .u8)])
+    (.list [.list [.sc 9], .sc 1, .list [.list [.sc 2, .sc 3]]]) := wfb_sound _ _ (by decide)
+example : (Ty.struct [.vec (.sc .u8), .sc .u16, .vec (.sc .u16)]).supportedS = true := by decide
+
+/-! ## 16. extension 3: the 16-bit bound is decidable; what a wrapped count does to the NEXT value -/
+
+/-- the domain of the round trip (`Counts16`: every string / buffer / vector / map inside the value has at most
+65535 bytes / elements) is a decidable predicate: `counts16b` computes it -/
+theorem counts16_decidable (ty : Ty) (v : Val) : counts16b ty v = true ↔ Counts16 ty v :=
+  counts16b_iff ty v
+
+/-- inside the domain = round trip (restated over the executable predicate) -/
+theorem roundtrip_inside_counts16 (ty : Ty) (v : Val) (rest : List Byte) (ht : Typed ty v)
+    (h16 : counts16b ty v = true) : decodeB ty (encodeA ty v ++ rest) = some (v, rest) :=
+  roundtrip_prefix_B ty v rest (wf_of_typed ty v ht ((counts16b_iff ty v).mp h16))
+
+example : counts16b (.vec .str) (.list [.bytes [1, 2]]) = true := by decide
+
+/-- `_witness` at 65536, THE NEXT VALUE: a `vector<uint8_t>` of 65536 sevens followed by the `uint8_t` 5 through one
+writer and one reader — the count on the wire is 0, the vector comes back empty, and the value behind it is read from
+the first element byte: 7 instead of 5, 65536 bytes left over (finding C09-count-wraps-at-65536) -/
+theorem count_wrap_following_value_witness :
+    decodeFieldsA [.vec (.sc .u8), .sc .u8]
+        (encodeFieldsA [.vec (.sc .u8), .sc .u8] [.list (List.replicate 65536 (.sc 7)), .sc 5]) =
+      some ([.list [], .sc 7], List.replicate 65535 7#8 ++ [5#8]) :=
+  wrap_following_65536
+
+/-! ## 17. extension 3: HOSTILE INPUT — what a decode can allocate (cost model)
+
+`vsize v` = number of nodes of the decoded value (one per scalar, per string byte, per container / entry node),
+`blank ty` = the size of the value an exhausted input decodes to.  A count is 2 bytes on the wire: it announces at
+most 65535 elements and, because missing bytes read as zero, it announces NONE once the input is exhausted. -/
+
+/-- DECODE ALLOCATES AT MOST `blank ty * (1 + 65535 * consumed)` nodes: for every type, arbitrarily nested, and EVERY
+input (counts larger than the remaining input, 65535 x 65535 nested counts, …).  Memory is linear in the bytes
+actually consumed with the constant 65535 of the count width — a 4-byte input can never make the reader allocate
+4 GiB (`vector<vector<uint8_t>>` on 4 bytes: at most 2 * 262141 nodes) -/
+theorem decode_allocates_at_most (ty : Ty) (input : List Byte) (v : Val) (r : List Byte)
+    (h : decodeB ty input = some (v, r)) :
+    vsize v ≤ blank ty * (1 + 65535 * (input.length - r.length)) := by
+  obtain ⟨c, e, b⟩ := bndB ty input v r h
+  have hc : input.length - r.length = c := by omega
+  rw [hc]; exact b
+
+/-- … in particular linear in the length of the input -/
+theorem decode_allocates_linear_in_input (ty : Ty) (input : List Byte) (v : Val) (r : List Byte)
+    (h : decodeB ty input = some (v, r)) : vsize v ≤ blank ty * (1 + 65535 * input.length) :=
+  Nat.le_trans (decode_allocates_at_most ty input v r h)
+    (Nat.mul_le_mul_left _ (Nat.add_le_add_left (Nat.mul_le_mul_left _ (Nat.sub_le _ _)) _))
+
+/-- the constant is reached (so memory is NOT bounded by the input length alone): the 2-byte input `ff ff` decodes,
+as a `vector<uint8_t>`, to 65535 zero elements -/
+theorem decode_allocation_witness :
+    decodeB (.vec (.sc .u8)) [0xff#8, 0xff#8] = some (.list (List.replicate 65535 (.sc 0)), []) ∧
+    vsize (.list (List.replicate 65535 (.sc 0))) = 65536 ∧ blank (.vec (.sc .u8)) = 2 := by
+  refine ⟨hostile_count_decode, ?_, rfl⟩
+  simp only [vsize, vsizes_replicate_sc]
+
+example : ∃ v r, decodeB (.vec (.vec (.sc .u8))) [0xff, 0xff, 0x02, 0x00, 0x07] = some (v, r) :=
+  let ⟨v, _, _, h⟩ := bounded_archive_reader_safe (.vec (.vec (.sc .u8))) [0xff, 0xff, 0x02, 0x00, 0x07]
+  ⟨v, _, h⟩
 
 -- extension 2: maps in key order for the key types that were excluded before
 example : WF (.map (.vec (.sc .u8)) .str)
